@@ -111,11 +111,11 @@ def validate_api(c, api_file, name):
     return viols, int(m.group(2))
 
 
-def hook_cfg(path, maxj, maxn, g):
-    return ('CONSTANTS MaxJ = %d  MaxN = %d  G = %d  COES = {FALSE}  CANCEL = TRUE  GATED = TRUE  DUPDEPS = FALSE  CTX2 = TRUE\n'
+def hook_cfg(path, maxj, maxn, g, sym=False):
+    return ('CONSTANTS MaxJ = %d  MaxN = %d  G = %d  COES = {FALSE}  CANCEL = TRUE  GATED = TRUE  DUPDEPS = FALSE  CTX2 = TRUE  SYM = %s\n'
             'OUTCOMES = {"ok"}\nTraceFile = "%s"\nSPECIFICATION TSpec\n'
             'INVARIANTS DepsBeforeRun RunningBound StateReportOK OngoingBound Ownership\nCHECK_DEADLOCK FALSE\n'
-            % (maxj, maxn, g, path))
+            % (maxj, maxn, g, str(sym).upper(), path))
 
 
 def validate_hooks(c, hook_file, name, max_events=400, max_nj=12, limit=None):
@@ -171,6 +171,17 @@ def validate_hooks(c, hook_file, name, max_events=400, max_nj=12, limit=None):
                 r2 = c.tlc("SchedTrace", hook_cfg(path, max(alt["nj"], 1), alt["n"], max(len(alt["workers"]) - alt["n"], 0)),
                            "hook-%s-%s-alt" % (name, gname), workers=1, timeout=1800, dfs=True, allow_violation=True)
                 ok_alt = '"TRACE-ACCEPTED", 1,' in r2["output"] and not r2["violated"]
+            if not ok_alt:
+                # last resort: let TLC choose which goroutine is which (bounded: the search is expensive)
+                json.dump({"traces": [bad]}, open(path, "w"))
+                try:
+                    r3 = c.tlc("SchedTrace", hook_cfg(path, max(bad["nj"], 1), bad["n"], max(len(bad["workers"]) - bad["n"], 0), sym=True),
+                               "hook-%s-%s-sym" % (name, gname), workers=1, timeout=240, dfs=True, allow_violation=True)
+                    ok_alt = '"TRACE-ACCEPTED", 1,' in r3["output"] and not r3["violated"]
+                except Inconclusive:
+                    skipped += 1
+                    ts = ts[nacc + 1:]
+                    continue
             if ok_alt:
                 accepted += 1
             else:
